@@ -223,7 +223,7 @@ fn main() {
     check.assume("a deadlock is a stable state: no answer for 4 s wall and zero CPU ticks over two further samples 1 s apart");
     check.assume("interleavings of the multi-threaded runs are the OS scheduler's; absence of data races is not shown");
 
-    let spec = Spec { cpu_secs: 120, wall_grace_secs: 4, rlimit_as: 0, ..Spec::new("c19") };
+    let spec = Spec { cpu_secs: 120, wall_grace_secs: 4, rlimit_as: 0, env: vec![("RUST_BACKTRACE".into(), "0".into())], ..Spec::new("c19") };
 
     if let Some(p) = check.replay.clone() {
         let v: Value = serde_json::from_str(&std::fs::read_to_string(&p).expect("replay")).expect("json");
@@ -290,7 +290,7 @@ fn main() {
     // (a starved worker on a loaded machine also shows no CPU progress); the confirmations run together
     let dl: Vec<usize> = outs.iter().enumerate().filter(|(_, o)| matches!(o, Outcome::Deadlock { .. })).map(|(i, _)| i).collect();
     let dl_cases: Vec<Value> = dl.iter().map(|i| values[*i].clone()).collect();
-    let dl_outs = supervise::run_cases(&Spec { cpu_secs: 120, wall_grace_secs: 8, rlimit_as: 0, ..Spec::new("c19") }, &dl_cases, engine::WORKERS);
+    let dl_outs = supervise::run_cases(&Spec { cpu_secs: 120, wall_grace_secs: 8, rlimit_as: 0, env: spec.env.clone(), ..Spec::new("c19") }, &dl_cases, engine::WORKERS);
     let mut confirmed: BTreeMap<usize, Outcome> = BTreeMap::new();
     for (i, o) in dl.iter().zip(dl_outs) {
         if !matches!(o, Outcome::Deadlock { .. }) {
